@@ -68,6 +68,17 @@ Definition get_header (st : bstate) (h : N) : option hinfo :=
   | None => lookup h (bs_hdr st)
   end.
 
+(* Block bodies.  SetBlockBody(hash) is put by the same loop iteration of handleFinalisedBlock
+   that puts the header of the block (SetHeader; the only step between them, for block number 1,
+   is Header.SlotNumber, which cannot fail on a header AddBlock accepted), and by
+   NewBlockStateFromGenesis for genesis; nothing else writes either key family and nothing
+   deletes from them.  The body keys of the database are therefore the header keys [bs_hdr]:
+   HasBlockBody / GetBlockBody (unfinalised blocks first, then the database) and GetBlockByHash
+   (GetHeader then GetBlockBody) succeed exactly when HasHeader does. *)
+Definition has_body (st : bstate) (h : N) : bool := has_header st h.
+Definition get_block (st : bstate) (h : N) : bool :=
+  match get_header st h with Some _ => has_body st h | None => false end.
+
 (* error classes *)
 Definition e_unknown : nat := 1.          (* cannot finalise unknown block *)
 Definition e_not_in_chain : nat := 2.     (* RangeInMemory(lastFinalised, hash) failed *)
@@ -202,6 +213,13 @@ Definition bs_hash_by_number (st : bstate) (n : N) : outcome N :=
              else Err c
   | Panic => Panic
   | OutOfFuel => OutOfFuel
+  end.
+
+(* BlockState.GetBlockByNumber: GetHashByNumber then GetBlockByHash; answers the block's hash *)
+Definition block_by_number (st : bstate) (n : N) : outcome N :=
+  match bs_hash_by_number st n with
+  | Ok h => if get_block st h then Ok h else Err e_db
+  | other => other
   end.
 
 Definition highest_finalised_hash (st : bstate) : outcome N :=
